@@ -55,3 +55,26 @@ api("C19", "api-c19", "config-line-without-equals", {"loader": "config", "data":
 api("C19", "api-c19", "config-key-before-section", {"loader": "config", "data": base64.b64encode(b"\tname = x\n").decode()}, "assignment to nil map")
 api("C19", "api-c19", "global-config-line-without-equals", {"loader": "globalconfig", "data": base64.b64encode(b"[a]\nb\n").decode()}, "Config.load indexed past the split result")
 print("pins written")
+
+# ---- C15 / C16 pins: points are selected by operation class of the fault-free run (at_op)
+def fault(pid, name, setup, command, at_op, why):
+    os.makedirs("/verif/regress/" + pid, exist_ok=True)
+    json.dump({"property": pid, "kind": pid.lower(), "case": {"state": name, "setup": setup, "command": command, "at_op": at_op}, "error": why},
+              open("/verif/regress/%s/%s.json" % (pid, name), "w"), indent=1)
+
+ONE = INIT + [w("a.txt", "one\n"), w("d/b.txt", "two\n"), g("add", "a.txt", "d"), g("commit", "-m", "first")]
+DIRTY = ONE + [w("a.txt", "changed\n"), w("n.txt", "new\n")]
+STAGED = DIRTY + [g("add", "a.txt", "n.txt")]
+TWO = STAGED + [g("commit", "-m", "second")]
+for pid in ("C15", "C16"):
+    fault(pid, "add-index-rewrite", DIRTY, ["add", "a.txt", "n.txt"], "index:write", "index rewritten in place: truncated index after a kill / failed write")
+    fault(pid, "add-blob-before-index", DIRTY, ["add", "n.txt"], "object:create", "add updated the index before the blob existed")
+    fault(pid, "commit-branch-rewrite", STAGED, ["commit", "-m", "second"], "branch:write", "branch file rewritten in place")
+    fault(pid, "commit-head-rewrite", STAGED, ["commit", "-m", "second"], "HEAD:write", "HEAD rewritten in place")
+    fault(pid, "commit-does-not-rewrite-subtree", STAGED, ["commit", "-m", "second"], "object:write#1", "commit rewrote an unchanged, already referenced tree object in place")
+    fault(pid, "reset-index-rewrite", TWO, ["reset", "--mixed", "HEAD@{1}"], "index:write", "index rewritten in place")
+    fault(pid, "switch-head-rewrite", TWO + [g("branch", "topic")], ["switch", "topic"], "HEAD:write", "HEAD rewritten in place")
+    fault(pid, "init-skeleton", [], ["init"], "config:create", "interrupted init left a .goit without HEAD")
+    fault(pid, "init-head", [], ["init"], "HEAD:write", "interrupted init left an empty HEAD")
+fault("C16", "commit-branch-read-error-drops-parent", STAGED, ["commit", "-m", "second"], "branch:readfile#3", "any error reading the branch file was taken for 'first commit'")
+print("fault pins written")
